@@ -110,7 +110,7 @@ func HarnessC18() {
 // HarnessC18Valid: on valid shapes of the grammar the generator neither fails nor panics
 // (the panic policy of this unit turns any feasible panic path into a violation).
 func HarnessC18Valid() {
-	pt, ps := zzGen(zzvrt.Param("KINDS", zzAllKinds|zzKMap|zzKEnumStrNull), zzvrt.Param("DEPTH", 1), true)
+	pt, ps := zzGen(zzvrt.Param("KINDS", zzEveryKind), zzvrt.Param("DEPTH", 1), true)
 	required := zzvrt.Bool()
 	viaRef := zzvrt.Bool()
 	cfg := Config{MinSizedInts: zzvrt.Bool(), ExtraImports: zzvrt.Bool(), OnlyModels: zzvrt.Bool()}
